@@ -40,6 +40,7 @@ import (
 	"github.com/nspcc-dev/neofs-node/verifharness/ev"
 	"github.com/nspcc-dev/neofs-node/verifharness/faultstore"
 	"github.com/nspcc-dev/neofs-node/verifharness/stor"
+	"github.com/nspcc-dev/neofs-node/verifharness/uni"
 	cid "github.com/nspcc-dev/neofs-sdk-go/container/id"
 	oid "github.com/nspcc-dev/neofs-sdk-go/object/id"
 	"go.uber.org/zap"
@@ -51,7 +52,11 @@ const (
 
 	fpReput = "C17:reput-double-count"
 	fpLeak  = "C17:flushobjs-leak-on-error"
+	fpWin   = "C17:batch-window-off-by-one"
 )
+
+// excl says which known-finding classes are excluded by construction.
+type excl struct{ reput, leak, win bool }
 
 type step struct {
 	Op string // put cput del adv outage failon failoff block release probe reopen ro rw flush
@@ -90,11 +95,17 @@ func reach(n int) int {
 	return n
 }
 
-func genCfg(t *rapid.T, uniformClass bool) cfg {
+func genCfg(t *rapid.T, uniformClass, oneBatch bool) cfg {
 	var c cfg
 	c.Thr = rapid.SampledFrom([]int{300, 600}).Draw(t, "thr")
 	c.BatchCount = rapid.SampledFrom([]int{2, 3, 128}).Draw(t, "bcount")
 	c.BatchSize = rapid.SampledFrom([]int{0, 2*c.Thr + 100}).Draw(t, "bsize")
+	if oneBatch {
+		// known batch-window class excluded by construction: a scheduler round
+		// never needs a second hand-over (no count/size limit hit, <= 1 big object)
+		c.BatchCount, c.BatchSize = 128, 0
+	}
+	bigs := 0
 	c.Workers = rapid.SampledFrom([]int{1, 2, 20}).Draw(t, "workers")
 	c.M = rapid.IntRange(1200, 9000).Draw(t, "M")
 	class := rapid.IntRange(0, 1).Draw(t, "class")
@@ -102,6 +113,12 @@ func genCfg(t *rapid.T, uniformClass bool) cfg {
 		k := class
 		if !uniformClass {
 			k = rapid.IntRange(0, 1).Draw(t, "k")
+		}
+		if oneBatch && k == 1 {
+			if bigs > 0 || uniformClass {
+				k = 0
+			}
+			bigs++
 		}
 		if k == 0 { // small: <= thr (batched)
 			c.Sizes[i] = rapid.OneOf(rapid.IntRange(minObjSize, c.Thr), rapid.Just(c.Thr), rapid.Just(c.Thr-1)).Draw(t, "size")
@@ -116,7 +133,7 @@ func genCfg(t *rapid.T, uniformClass bool) cfg {
 	return c
 }
 
-func genSteps(t *rapid.T, faulty, noReput bool, rec *ev.Recorder) []step {
+func genSteps(t *rapid.T, faulty, noReput, noKeep bool, rec *ev.Recorder) []step {
 	n := rapid.IntRange(4, 22).Draw(t, "nsteps")
 	ops := []string{"put", "put", "put", "put", "cput", "del", "adv", "adv", "adv", "block", "release", "probe", "probe", "reopen", "ro", "rw", "flush"}
 	if faulty {
@@ -171,7 +188,7 @@ func genSteps(t *rapid.T, faulty, noReput bool, rec *ev.Recorder) []step {
 		case "outage":
 			s.N = rapid.OneOf(rapid.IntRange(1, 12), rapid.IntRange(13, 60), rapid.Just(90)).Draw(t, "n")
 		case "probe":
-			s.B = rapid.Bool().Draw(t, "keep")
+			s.B = rapid.Bool().Draw(t, "keep") && !noKeep
 		}
 		res = append(res, s)
 	}
@@ -200,6 +217,7 @@ type faults struct {
 	failN      int  // injected failures
 	failMulti  bool // a failure was injected while the cache held >= 2 objects
 	failMixed  bool // ... while it held a mixed small/big content
+	multiBatch bool // a tick happened while the content needed >= 2 hand-overs in one scheduler round
 }
 
 type obj struct {
@@ -326,7 +344,9 @@ func listCache(root string) (map[string]int64, error) {
 func listing(m map[string]int64) string {
 	ks := make([]string, 0, len(m))
 	for k, v := range m {
-		ks = append(ks, fmt.Sprintf("%s:%d", k[len(k)-6:], v))
+		var a oid.Address
+		_ = a.DecodeString(k)
+		ks = append(ks, fmt.Sprintf("%s:%d", short(a), v))
 	}
 	sort.Strings(ks)
 	return strings.Join(ks, ",")
@@ -353,6 +373,55 @@ func (e *env) measure() (map[string]int64, int) {
 	e.f.cacheMixed = small && big
 	e.f.mu.Unlock()
 	return m, int(sum)
+}
+
+// needsSecondHandover reports whether one scheduler round over content m has
+// to hand over a batch and then continue with further addresses (documented
+// batching rules: objects above the threshold go alone, a batch closes at
+// maxFlushBatchCount objects or above maxFlushBatchSize bytes).
+func (e *env) needsSecondHandover(m map[string]int64) bool {
+	sizes := make([]int, 0, len(m))
+	for _, sz := range m {
+		sizes = append(sizes, int(sz))
+	}
+	sort.Ints(sizes)
+	bsize := e.c.BatchSize
+	if bsize == 0 {
+		bsize = 8 << 20
+	}
+	cnt, sum := 0, 0
+	for j, sz := range sizes {
+		last := j == len(sizes)-1
+		if sz > e.c.Thr {
+			if !last {
+				return true
+			}
+			continue
+		}
+		cnt++
+		sum += sz
+		if cnt >= e.c.BatchCount || sum > bsize {
+			if !last {
+				return true
+			}
+			cnt, sum = 0, 0
+		}
+	}
+	return false
+}
+
+// tick advances the fake clock by one second (one scheduler tick).
+func (e *env) tick() map[string]int64 {
+	m, _ := e.measure()
+	if e.needsSecondHandover(m) {
+		e.f.mu.Lock()
+		e.f.multiBatch = true
+		e.f.mu.Unlock()
+	}
+	time.Sleep(time.Second)
+	synctest.Wait()
+	m, _ = e.measure()
+	return m
 }
 
 func (e *env) installHooks() {
@@ -438,9 +507,7 @@ func (e *env) isFailing() bool {
 
 func (e *env) advance(sec int) {
 	for i := 0; i < sec; i++ {
-		time.Sleep(time.Second)
-		synctest.Wait()
-		e.measure()
+		e.tick()
 	}
 }
 
@@ -495,8 +562,8 @@ func (e *env) seqPut(what string, o obj) (admitted, stop bool) {
 }
 
 func short(a oid.Address) string {
-	s := a.EncodeToString()
-	return s[len(s)-6:]
+	c, i := uni.Index(a)
+	return fmt.Sprintf("c%d/o%d", c, i)
 }
 
 // probe checks the exact admission boundary at a quiescent point.
@@ -682,9 +749,7 @@ func (e *env) drain() map[string]int64 {
 	m, _ = e.measure()
 	last = listing(m)
 	for sec := 0; sec < 240; sec++ {
-		time.Sleep(time.Second)
-		synctest.Wait()
-		m, _ = e.measure()
+		m = e.tick()
 		if l := listing(m); l == last {
 			stable++
 		} else {
@@ -709,22 +774,28 @@ func (e *env) checkDrained(m map[string]int64) (stop bool) {
 			}
 		}
 		e.f.mu.Lock()
-		failMixed := e.f.failMixed
+		failMixed, multiBatch := e.f.failMixed, e.f.multiBatch
 		e.f.mu.Unlock()
 		msg := fmt.Sprintf("objects never flushed: the cache dir still holds [%s] after the storage was healthy and the listing was unchanged for 15 s (> error back-off 10 s + tick 1 s)", listing(m))
-		if allBig && failMixed {
-			// Precondition of the known class: a flush failed while the cache
-			// held a batch of small objects followed by a big one. Confirm the
-			// class: a NEW cache instance (empty in-flight set) drains the rest.
-			e.label("leak-hit")
+		if multiBatch || allBig && failMixed {
+			// Preconditions of the two known "address stuck in the in-flight
+			// set" classes: (win) a scheduler round had to hand over a batch and
+			// continue with further addresses; (leak) a flush failed while the
+			// cache held a batch of small objects followed by a big one.
+			// Confirm: a NEW cache instance (empty in-flight set) drains the rest.
+			fp, why := fpWin, "a scheduler round needed a second hand-over: the batch window restarts at the address already sent, the next address is marked in-flight but never sent"
+			if !multiBatch {
+				fp, why = fpLeak, "a flush error arrived while a small batch was followed by a big object: the error path forgets to unmark the current address"
+			}
+			e.label("stuck-hit:" + fp)
 			e.reopen()
 			if m2 := e.drain(); len(m2) > 0 {
 				e.fatalf("%s; and a fresh cache instance does not flush them either: [%s]", msg, listing(m2))
 			}
-			if e.rec.Known(fpLeak) {
+			if e.rec.Known(fp) {
 				return true
 			}
-			e.fatalf("[%s] %s; a fresh cache instance over the same directory flushes them, so the address was left in the scheduler's in-flight set (flushObjs) by the error path", fpLeak, msg)
+			e.fatalf("[%s] %s; a fresh cache instance over the same directory flushes them, so the address was left in the scheduler's in-flight set (flushObjs): %s", fp, msg, why)
 		}
 		e.fatalf("%s", msg)
 	}
@@ -745,6 +816,7 @@ func TestC17(t *testing.T) {
 	defer rec.Flush()
 	reputOpen := ev.IsOpen("C17", fpReput)
 	leakOpen := ev.IsOpen("C17", fpLeak)
+	winOpen := ev.IsOpen("C17", fpWin)
 	bubble.Check(t, func(t *rapid.T) {
 		faulty := rapid.IntRange(0, 2).Draw(t, "faulty") > 0
 		uniform := false
@@ -754,8 +826,11 @@ func TestC17(t *testing.T) {
 			uniform = true
 			rec.Excluded(1)
 		}
-		c := genCfg(t, uniform)
-		steps := genSteps(t, faulty, reputOpen, rec)
+		if winOpen {
+			rec.Excluded(1)
+		}
+		c := genCfg(t, uniform, winOpen)
+		steps := genSteps(t, faulty, reputOpen, winOpen, rec)
 
 		dir, err := os.MkdirTemp("", "c17")
 		if err != nil {
@@ -789,6 +864,9 @@ func TestC17(t *testing.T) {
 			}
 			if e.f.failMixed {
 				e.label("fail-with-mixed-sizes")
+			}
+			if e.f.multiBatch {
+				e.label("round-with-2+handovers")
 			}
 			if e.f.failN > 0 {
 				e.label("flush-failure-injected")
@@ -839,7 +917,7 @@ func TestC17(t *testing.T) {
 		// Oracle B after a restart with content: one fresh object stays in the
 		// cache (no tick between put and close), the new instance recounts.
 		{
-			z, _, zb := objOfSize(0, 11, reach(minObjSize+rapid.IntRange(0, 300).Draw(t, "zsize")))
+			z, _, zb := objOfSize(0, 11, reach(minObjSize+rapid.IntRange(0, 300-minObjSize).Draw(t, "zsize")))
 			if len(zb) <= e.c.M {
 				adm, stop := e.seqPut("put-before-restart", obj{z, zb})
 				if stop {
